@@ -556,4 +556,51 @@ C12_UpdateQuery(q, S, out) ==
 C12_Without(keys, S, out) ==
   Ok(S.query) => (Ok(out) /\ Ok(out.ok.query) /\
                   V(out.ok.query) = SelectSeq(V(S.query), LAMBDA p : p[1] \notin Range(keys)))
+
+\* ======================================================================== C13
+TrimTrailingEmpty(ps) == IF ps # <<>> /\ Last(ps) = <<>> THEN Front(ps) ELSE ps
+\* accessor relations of one URL
+C13_PartsRecompose(o) ==
+  (Ok(o.raw_parts) /\ Ok(o.raw_path)) =>
+     LET ps == V(o.raw_parts) IN
+     IF ps # <<>> /\ ps[1] = <<SLASH>> THEN PathEq(<<SLASH>> \o JoinWith(Tail(ps), SLASH), V(o.raw_path))
+     ELSE JoinWith(ps, SLASH) = V(o.raw_path)
+C13_NameIsLast(o) ==
+  (Ok(o.parts) /\ Ok(o.name) /\ Ok(o.raw_name) /\ Ok(o.raw_parts)) =>
+     LET ps == V(o.raw_parts) IN
+     V(o.raw_name) = (IF ps = <<>> \/ ps = << <<SLASH>> >> THEN <<>> ELSE Last(ps))
+C13_SuffixIsTail(o) ==
+  (Ok(o.raw_name) /\ Ok(o.raw_suffix) /\ Ok(o.raw_suffixes)) =>
+     /\ IsSuffixOf(V(o.raw_suffix), V(o.raw_name))
+     /\ (V(o.raw_suffix) # <<>> => V(o.raw_suffix)[1] = DOT)
+     /\ (V(o.raw_suffixes) # <<>> => (Last(V(o.raw_suffixes)) = V(o.raw_suffix) /\ IsSuffixOf(Flat(V(o.raw_suffixes)), V(o.raw_name))))
+SameVal(a, b) == Ok(a) /\ Ok(b) /\ V(a.ok.val) = V(b.ok.val)
+BothRaiseOrSame(a, b) == (Ok(a) = Ok(b)) /\ (Ok(a) => V(a.ok.val) = V(b.ok.val))
+IsDotText(t) == t \in {<<DOT>>, <<DOT, DOT>>}
+\* family "div": outs = <<u / s, u.joinpath(s), (u / s).parent>>
+C13_Div(args, S, outs) ==
+  /\ BothRaiseOrSame(outs[1], outs[2])
+  /\ (Ok(outs[1]) /\ ~Has(args.s, SLASH) /\ ~IsDotText(args.s) /\ ~HasSurrogate(args.s) /\ args.s # <<>>) =>
+        /\ Ok(outs[1].ok.name) /\ V(outs[1].ok.name) = args.s
+        /\ Ok(outs[3]) /\ Ok(outs[3].ok.parts) /\ Ok(S.parts)
+        \* "u's parts without a trailing empty segment"; for the root ('/', '') the parent is the root again
+        /\ \/ V(outs[3].ok.parts) = TrimTrailingEmpty(V(S.parts))
+           \/ TrimTrailingEmpty(V(outs[3].ok.parts)) = TrimTrailingEmpty(V(S.parts))
+\* family "join2": outs = <<joinpath(a, b), joinpath(a).joinpath(b), u / "a/b">>
+C13_Join2(args, S, outs) ==
+  (args.a # <<>> /\ args.b # <<>> /\ ~Has(args.a, SLASH)) => (BothRaiseOrSame(outs[1], outs[2]) /\ BothRaiseOrSame(outs[1], outs[3]))
+\* family "with_name": outs = <<u.with_name(n), u.with_name(n).parent, u.parent>>
+C13_WithName(args, S, outs) ==
+  (Ok(outs[1]) /\ ~HasSurrogate(args.n)) =>
+     /\ Ok(outs[1].ok.name) /\ V(outs[1].ok.name) = args.n
+     /\ (Ok(S.raw_name) /\ V(S.raw_name) # <<>> /\ args.n # <<>>) => (Ok(outs[2]) /\ Ok(outs[3]) /\ V(outs[2].ok.val) = V(outs[3].ok.val))
+\* family "with_suffix": outs = <<u.with_suffix(x)>>: only the suffix changes; nothing is re-encoded
+Stem(name, suffix) == Upto(name, Len(name) - Len(suffix))
+C13_WithSuffix(args, S, outs) ==
+  (Ok(outs[1]) /\ ~HasSurrogate(args.x) /\ Ok(S.name) /\ Ok(S.suffix) /\ Ok(S.raw_parts)) =>
+     LET O == outs[1].ok IN
+     /\ Ok(O.name) /\ V(O.name) = Stem(V(S.name), V(S.suffix)) \o args.x
+     /\ Ok(O.raw_parts) /\ Len(V(O.raw_parts)) = Len(V(S.raw_parts)) /\ Front(V(O.raw_parts)) = Front(V(S.raw_parts))
+     /\ Ok(O.raw_name) /\ Ok(S.raw_name) /\ Ok(S.raw_suffix)
+     /\ StartsWith(V(O.raw_name), Stem(V(S.raw_name), V(S.raw_suffix)))
 =============================================================================
